@@ -124,7 +124,7 @@ void XBW::idToStr(uint id, uint *pos, uchar **v, uint cnt) const {
 
 void XBW::subPathSearch(const uchar *qry, const uint ql, uint *left,
                         uint *right) const {
-  if (ql <= 1) {
+  if (ql == 0) {
     *left = 0;
     *right = nodesCount - 1;
     return;
